@@ -75,6 +75,29 @@ def replay(rec: Dict[str, Any]) -> List[Tuple[str, Dict[str, Any], str]]:
                 pass
             except BaseException as e:  # noqa: BLE001
                 disc = f"finditer-raised-{exc_family(e)}"
+        if not disc and si == 0:
+            # the gate depends on the environment's configuration at the time of the call, not on what the same
+            # environment object compiled earlier under another configuration
+            import jsonpath
+
+            env2 = jsonpath.JSONPathEnvironment(well_typed=False)
+            try:
+                env2.compile(text)
+            except BaseException:  # noqa: BLE001
+                pass
+            env2.well_typed = True
+            if rec["narrow"]:
+                env2.min_int_index, env2.max_int_index = -5, 5
+            try:
+                env2.compile(text)
+                acc2 = True
+            except JSONPathError:
+                acc2 = False
+            except BaseException as e:  # noqa: BLE001
+                acc2 = False
+                disc = f"reconfigured-environment-refused-with-{exc_family(e)}"
+            if not disc and acc2 != rec["accept"]:
+                disc = "reconfigured-environment-" + ("accepted-but-must-be-refused" if acc2 else "refused-but-valid")
         if disc:
             return [(f"{disc}|{'narrow' if rec['narrow'] else 'default'}|{defect_kind(rec['q'])}",
                      {"query": text, "style": si, "spec_accepts": rec["accept"], "narrow_limits": rec["narrow"], "tagged": rec}, disc)]
